@@ -127,6 +127,66 @@ Theorem C17_body_complete_auth :
 Proof. exact auth_do_bodies. Qed.
 Print Assumptions C17_body_complete_auth.
 
+(* --- the token request of a Bearer challenge, inside the model ------------------------- *)
+
+(* auth.Client.Do with the token request spelled out (fetchDistributionToken: GET without body;
+   fetchOAuth2Token: POST with a replayable form; both through the same retrying transport):
+   every request to the registry (first send, re-send) carries the whole body, and every
+   attempt of the token request carries the whole form, as far as each is read *)
+Theorem C17_token_bodies :
+  forall p cn bd sc tb tsc,
+    wf_body bd -> wf_body tb ->
+    let a := auth_do_tok p cn bd sc tb tsc in
+    (forall i t got, nth_error (attempts (ak_first a) ++ attempts (ak_second a)) i = Some (t, got) ->
+       got = received bd (nth (0 + i) sc default_beh)) /\
+    (forall i t got, nth_error (attempts (ak_token a)) i = Some (t, got) ->
+       got = received tb (nth (0 + i) tsc default_beh)).
+Proof. exact auth_do_tok_bodies. Qed.
+Print Assumptions C17_token_bodies.
+
+(* each of the three sends (registry, token service, registry again) is bounded *)
+Theorem C17_token_attempts :
+  forall p cn bd sc tb tsc,
+    let a := auth_do_tok p cn bd sc tb tsc in
+    1 <= Z.of_nat (length (attempts (ak_first a))) <= Z.max 0 (p_max_retry p) + 1 /\
+    Z.of_nat (length (attempts (ak_token a))) <= Z.max 0 (p_max_retry p) + 1 /\
+    Z.of_nat (length (attempts (ak_second a))) <= Z.max 0 (p_max_retry p) + 1.
+Proof. exact auth_do_tok_attempts. Qed.
+Print Assumptions C17_token_attempts.
+
+(* a body that cannot be replayed reaches the registry once, whatever the token service does *)
+Theorem C17_token_not_replayable :
+  forall p cn bd sc tb tsc,
+    (forall st', rewind bd st' = RwNoGetBody \/ rewind bd st' = RwGetBodyErr) ->
+    let a := auth_do_tok p cn bd sc tb tsc in
+    length (attempts (ak_first a)) = 1%nat /\ ak_second a = [].
+Proof. exact auth_do_tok_not_replayable. Qed.
+Print Assumptions C17_token_not_replayable.
+
+(* cancellation over the registry sends and the token request *)
+Theorem C17_token_cancel :
+  forall p bd sc tb tsc tc dl,
+    let a := auth_do_tok p (Some (tc, dl)) bd sc tb tsc in
+    Forall (fun x => fst x < tc) (tl (attempts (ak_first a))) /\
+    Forall (fun x => fst x < tc) (tl (attempts (ak_token a))) /\
+    Forall (fun x => fst x < tc) (tl (attempts (ak_second a))) /\
+    ak_time a <= Z.max 0 tc /\
+    Forall (fun pd => fst pd + snd pd < tc \/ (ak_res a = RCtx /\ ak_time a = Z.max (fst pd) tc))
+           (pauses (ak_first a) ++ pauses (ak_token a) ++ pauses (ak_second a)).
+Proof. exact auth_do_tok_cancel. Qed.
+Print Assumptions C17_token_cancel.
+
+(* the coarser model auth_do (token served at once) is auth_do_tok with a token service that
+   answers 200 immediately *)
+Theorem C17_token_instant_refines :
+  forall p bd sc tb,
+    p_pred p (OStatus 200 [] 0%N) = PStop ->
+    let a := auth_do false p None bd sc in
+    let k := auth_do_tok p None bd sc tb [] in
+    ak_res k = a_res a /\ ak_first k = a_first a /\ ak_second k = a_second a /\ ak_time k = a_time a.
+Proof. exact auth_do_tok_instant. Qed.
+Print Assumptions C17_token_instant_refines.
+
 (* a body that cannot be replayed (no GetBody, or GetBody failing) is sent once; the
    transport ends with that answer (or the policy's panic) *)
 Theorem C17_not_replayable_once :
@@ -408,6 +468,24 @@ Example ex_nobody :
   let a := auth_do false ex_policy None bd [mkBeh (OStatus 401 [] 1%N) None 0; mkBeh (OStatus 200 [] 0%N) None 0] in
   a_res a = RResp 200 0%N /\ length (attempts (a_second a)) = 1%nat.
 Proof. vm_compute. repeat split; reflexivity. Qed.
+
+(* Bearer challenge, the token service fails once (503) and then answers: the OAuth2 form
+   goes out whole twice, the body goes to the registry whole twice *)
+Example ex_token :
+  let a := auth_do_tok ex_policy None ex_body
+             [mkBeh (OStatus 401 [] 2%N) None 0; mkBeh (OStatus 201 [] 0%N) None 0]
+             (mkBody KReplay (b "grant_type=password")) [mkBeh (OStatus 503 [] 0%N) None 4; mkBeh (OStatus 200 [] 0%N) None 4] in
+  ak_res a = RResp 201 0%N /\
+  map snd (attempts (ak_token a)) = [b "grant_type=password"; b "grant_type=password"] /\
+  attempts (ak_second a) = [(108, b "manifest")].
+Proof. vm_compute. repeat split; reflexivity. Qed.
+
+(* the token service refuses: Do ends with that error, nothing is sent again *)
+Example ex_token_refused :
+  let a := auth_do_tok ex_policy None ex_body [mkBeh (OStatus 401 [] 2%N) None 0]
+                       (mkBody KNone []) [mkBeh (OStatus 403 [] 0%N) None 0] in
+  ak_res a = RTokenResp 403 /\ ak_second a = [].
+Proof. vm_compute. split; reflexivity. Qed.
 
 (* Retry-After: 2 within [100ns, 3s]: honoured *)
 Example ex_retry_after :
